@@ -55,8 +55,8 @@ ASSUMPTIONS = [
 ]
 
 
-def _roundtrip(mi, f, x, f2, x2):
-    v = values.value(mi, f, x)
+def _roundtrip(mi, f, x, f2, x2, pair=False):
+    v = values.value2(mi, f, x, f2, x2) if pair else values.value(mi, f, x)
     if v is None:
         return None
     load, dumps = values.functions(mi)[:2]
@@ -100,7 +100,22 @@ def roundtrip_reach(f: int, x: int) -> bool:
     return not (r and f == 1 and x == 2)
 
 
+def roundtrip2(x1: int, f2: int, x2: int) -> bool:
+    """
+    pre: 0 <= x1 < 70 and 0 <= f2 < 10 and 0 <= x2 < 70
+    post: __return__
+    """
+    sl = slice_no(0)
+    r = _roundtrip(sl // 16, sl % 16, x1, f2, x2, pair=True)
+    return True if r is None else r
+
+
 CONDITIONS = [
+    {'fn': 'roundtrip2', 'slices': values.combine_slices(), 'quick': None,
+     'thorough': 600,
+     'bound': 'TWO factors at a time for the doc, styled and opt models (one '
+              'slice per model and first factor): every pair of alternatives '
+              'of two different factors'},
     {'fn': 'roundtrip', 'slices': list(range(len(values.MODELS))),
      'quick': 110, 'thorough': 300,
      'bound': 'one slice per class model: every alternative of every factor '
